@@ -320,6 +320,74 @@ func runC10(c *core.Ctx) core.Meta {
 		}
 	}
 
+	// ---------------- R10.10 buddy allocator: a block leaving a free list flips its parent's merge bit ----------------
+	st10 := c.Rule("R10.10", "in the buddy allocator the merge bit of a parent block records that exactly one of its two halves is in use; whenever allocateMultiplePages takes a block from freeList[i], every path on which the block has a parent (i > 0) passes updateMergeListBitField(indexOfBlock(block, i-1)) before the function splits the block or returns: otherwise a later free merges the parent while its other half is still allocated and live pages are handed out again", 1)
+	if fn := c.MustFunc("R10.10", drvIntPkg, "deviceBuddyMemoryState.allocateMultiplePages"); fn != nil {
+		c.MarkAnalysed(fn)
+		g := core.BuildGraph(fn, 0, nil)
+		for _, n := range g.Nodes {
+			cc := core.CallOf(n.Instr)
+			if cc == nil || cc.IsInvoke() || cc.StaticCallee() == nil || cc.StaticCallee().Name() != "Remove" || cc.StaticCallee().Pkg == nil || cc.StaticCallee().Pkg.Pkg.Path() != "container/list" {
+				continue
+			}
+			ia, ok := cc.Args[0].(*ssa.IndexAddr)
+			if !ok {
+				continue
+			}
+			if f := core.LoadedField(ia.X); f == nil || f.Name() != "freeList" {
+				continue
+			}
+			level := core.StripConv(ia.Index)
+			st10.Instances++
+			noParent := CmpCut(func(_ *core.Node, op token.Token, x, y ssa.Value) int {
+				if core.StripConv(x) != level {
+					return 0
+				}
+				if z, isC := core.ConstInt(y); !isC || z != 0 {
+					return 0
+				}
+				switch op {
+				case token.GTR, token.NEQ:
+					return -1
+				case token.EQL, token.LEQ:
+					return 1
+				}
+				return 0
+			})
+			isUpdate := func(m *core.Node) bool {
+				c2 := core.CallOf(m.Instr)
+				if c2 == nil || c2.StaticCallee() == nil || c2.StaticCallee().Name() != "updateMergeListBitField" {
+					return false
+				}
+				// the argument is indexOfBlock(<taken block>, i-1)
+				inner, ok := c2.Args[len(c2.Args)-1].(*ssa.Call)
+				if !ok || inner.Call.StaticCallee() == nil || inner.Call.StaticCallee().Name() != "indexOfBlock" {
+					return false
+				}
+				lv, ok := core.StripConv(inner.Call.Args[len(inner.Call.Args)-1]).(*ssa.BinOp)
+				if !ok || lv.Op != token.SUB || core.StripConv(lv.X) != level {
+					return false
+				}
+				k, isC := core.ConstInt(lv.Y)
+				return isC && k == 1
+			}
+			leak := ""
+			g.Walk(core.After(n, nil), core.WalkOpts{Stop: isUpdate, CutEdge: func(m *core.Node, i int) bool { return noParent(m, i) }}, func(st core.State) {
+				if _, isR := st.N.Instr.(*ssa.Return); isR {
+					leak = "returns"
+				}
+				if c2 := core.CallOf(st.N.Instr); c2 != nil && c2.StaticCallee() != nil && c2.StaticCallee().Name() == "updateSplitBlockBitField" && leak == "" {
+					leak = "starts splitting the block"
+				}
+			})
+			st10.Ob(leak == "")
+			st10.Sample("allocateMultiplePages: taking a block from freeList[i] flips the parent's merge bit on every path with i > 0: %v", leak == "")
+			if leak != "" {
+				c.ReportAt("R10.10", fn, n.Instr.Pos(), "buddy:parent-merge-bit", "a block is taken from freeList[i] and the function "+leak+" on a path with i > 0 that did not flip the merge bit of the block's parent (the update is made only under a narrower condition): the parent still looks as if one half were free, a later free of a sibling merges it while this half is allocated, and live physical pages are handed out again")
+			}
+		}
+	}
+
 	// ---------------- R10.4 no container mutated while ranged ----------------
 	st4 := c.Rule("R10.4", "a `for … range X` loop whose body reassigns X (remove-while-iterating) leaves the loop right after the assignment (return or break); otherwise elements are skipped or the stale length indexes past the end", 1)
 	for _, p := range []*PkgInfo{pd, pint} {
